@@ -4,6 +4,7 @@ package e4
 
 import (
 	"bytes"
+	"encoding/base64"
 	"encoding/json"
 	"fmt"
 	"io"
@@ -21,12 +22,14 @@ import (
 	config_util "github.com/prometheus/common/config"
 	k8sd "github.com/prometheus/prometheus/discovery/kubernetes"
 
+	"github.com/prometheus/prometheus/model/labels"
 	"kvassverif/internal/cfggen"
 	"kvassverif/internal/core"
 	"kvassverif/internal/e3"
 	"kvassverif/internal/sc"
 	"tkestack.io/kvass/pkg/prom"
 	"tkestack.io/kvass/pkg/shard"
+	"tkestack.io/kvass/pkg/target"
 )
 
 func clipS(s string, n int) string {
@@ -812,12 +815,93 @@ func runC16(w *core.WorkerCtx, idx int) *core.CaseResult {
 		}
 		os.RemoveAll(dir)
 	}
+	if idx%8 == 4 {
+		c16Credentials(w, idx, r, res)
+	}
 	c16Wired(w, idx, r, spec, res)
 	res.Viol = dedupeV(res.Viol)
 	if idx < 2 {
 		res.Sample = map[string]interface{}{"config": base, "hash": h0}
 	}
 	return res
+}
+
+// c16Credentials: "reported in sync exactly when it runs the coordinator's configuration" - observed at the
+// wire. A sidecar that reports the hash of configuration Y after a push that changed ONLY a secret of a job
+// must scrape that job's targets with Y's credentials from then on.
+func c16Credentials(w *core.WorkerCtx, idx int, r *core.Rng, res *core.CaseResult) {
+	var mu sync.Mutex
+	var seen []string
+	srv := httptest.NewServer(http.HandlerFunc(func(rw http.ResponseWriter, rq *http.Request) {
+		mu.Lock()
+		seen = append(seen, rq.Header.Get("Authorization"))
+		mu.Unlock()
+		rw.Header().Set("Content-Type", "text/plain; version=0.0.4")
+		io.WriteString(rw, "up 1\n")
+	}))
+	defer srv.Close()
+	addr := strings.TrimPrefix(srv.URL, "http://")
+	kind := []string{"bearer_token", "authorization", "basic_auth"}[r.Intn(3)]
+	cfg := func(secret string) (string, string) {
+		base := "global:\n  scrape_interval: 15s\nscrape_configs:\n- job_name: other\n- job_name: sec\n"
+		switch kind {
+		case "bearer_token":
+			return base + "  bearer_token: " + secret + "\n", "Bearer " + secret
+		case "authorization":
+			return base + "  authorization:\n    type: Token\n    credentials: " + secret + "\n", "Token " + secret
+		}
+		return base + "  basic_auth:\n    username: scraper\n    password: " + secret + "\n", "Basic " + base64.StdEncoding.EncodeToString([]byte("scraper:"+secret))
+	}
+	dir := filepath.Join(w.Scratch, fmt.Sprintf("c16-cred-%d", idx))
+	defer os.RemoveAll(dir)
+	in, err := sc.New(sc.Options{StoreDir: dir})
+	if err != nil {
+		res.Inconcl = "sidecar: " + err.Error()
+		return
+	}
+	const h = uint64(4242)
+	tg := &target.Target{Hash: h, Series: 1, Labels: []labels.Label{{Name: "__address__", Value: addr}, {Name: "__metrics_path__", Value: "/metrics"}, {Name: "__scheme__", Value: "http"}, {Name: "instance", Value: addr}, {Name: "job", Value: "sec"}}}
+	scrape := func() {
+		q := url.Values{}
+		q.Set("_jobName", "sec")
+		q.Set("_hash", fmt.Sprint(h))
+		q.Set("_scheme", "http")
+		in.Proxy.ServeHTTP(httptest.NewRecorder(), httptest.NewRequest("GET", "http://"+addr+"/metrics?"+q.Encode(), nil))
+	}
+	for step, secret := range []string{"first-" + fmt.Sprint(idx), "second-" + fmt.Sprint(idx), "third-" + fmt.Sprint(idx)} {
+		text, wantHeader := cfg(secret)
+		if err := in.PushConfig(text); err != nil {
+			res.Inconcl = "push: " + err.Error()
+			return
+		}
+		if step == 0 {
+			if err := in.UpdateTargets(map[string][]*target.Target{"sec": {tg}}); err != nil {
+				res.Inconcl = "assign: " + err.Error()
+				return
+			}
+		}
+		want, _ := hashOf(text)
+		rt, err := in.Runtime()
+		if err != nil || rt.ConfigHash != want {
+			continue // not reported in sync: judged elsewhere
+		}
+		mu.Lock()
+		seen = nil
+		mu.Unlock()
+		scrape()
+		res.Execs++
+		res.AddStat("scrapes_after_a_secret_only_change", 1)
+		mu.Lock()
+		got := append([]string{}, seen...)
+		mu.Unlock()
+		if len(got) != 1 || got[0] != wantHeader {
+			res.Violate("C16/in-sync-but-scraping-with-other-credentials/"+kind, "configuration version %d differs from the previous one only in the %s secret of job sec; the sidecar reports its hash (in sync), but the scrape of that job's target carried Authorization %q instead of %q", step+1, kind, got, wantHeader)
+			if res.Witness == nil {
+				res.Witness = map[string]interface{}{"kind": "credentials in use", "config": text}
+			}
+			return
+		}
+	}
 }
 
 const saDir = "/var/run/secrets/kubernetes.io/serviceaccount/"
